@@ -14,11 +14,14 @@
 #include <stdlib.h>
 #include <string.h>
 
+#include <map>
 #include <string>
 #include <vector>
 
 #include "depfile_parser.h"
 #include "eval_env.h"
+#include "manifest_parser.h"
+#include "disk_interface.h"
 #include "graph.h"
 #include "state.h"
 #include "util.h"
@@ -126,6 +129,54 @@ static bool Expand(const vector<string>& names, string* in_sp, string* out_sp, s
   return true;
 }
 
+// -- manifest ----------------------------------------------------------------------
+struct MapReader : public FileReader {
+  std::map<string, string> files;
+  Status ReadFile(const string& path, string* contents, string* err) override {
+    auto it = files.find(path);
+    if (it == files.end()) { *err = "No such file or directory"; return NotFound; }
+    *contents = it->second;
+    return Okay;
+  }
+};
+static string JL(const vector<string>& v) { return JStrs(v); }
+static string Manifest(const JV& jfiles) {
+  MapReader rd;
+  for (auto& p : jfiles.o) rd.files[p.first] = p.second.s;
+  State state;
+  ManifestParser parser(&state, &rd);
+  string err;
+  if (!parser.Load("build.ninja", &err)) return "{\"ok\":false,\"err\":" + JEsc(err) + "}";
+  string edges = "[";
+  for (size_t k = 0; k < state.edges_.size(); ++k) {
+    Edge* e = state.edges_[k];
+    vector<string> outs, iouts, ex, im, oo, vals;
+    for (size_t i = 0; i < e->outputs_.size(); ++i) (e->is_implicit_out(i) ? iouts : outs).push_back(e->outputs_[i]->path());
+    for (size_t i = 0; i < e->inputs_.size(); ++i) (e->is_order_only(i) ? oo : e->is_implicit(i) ? im : ex).push_back(e->inputs_[i]->path());
+    for (Node* n : e->validations_) vals.push_back(n->path());
+    if (k) edges += ",";
+    edges += "{\"outs\":" + JL(outs) + ",\"iouts\":" + JL(iouts) + ",\"ex\":" + JL(ex) + ",\"im\":" + JL(im) + ",\"oo\":" + JL(oo) + ",\"vals\":" + JL(vals) +
+             ",\"rule\":" + JEsc(e->rule().name()) + ",\"pool\":" + JEsc(e->pool()->name()) + ",\"command\":" + JEsc(e->GetBinding("command")) +
+             ",\"description\":" + JEsc(e->GetBinding("description")) + ",\"depfile\":" + JEsc(e->GetUnescapedDepfile()) + ",\"rspfile\":" + JEsc(e->GetUnescapedRspfile()) +
+             ",\"rspfile_content\":" + JEsc(e->GetBinding("rspfile_content")) + ",\"restat\":" + (e->GetBindingBool("restat") ? "true" : "false") +
+             ",\"generator\":" + (e->GetBindingBool("generator") ? "true" : "false") + ",\"deps\":" + JEsc(e->GetBinding("deps")) +
+             ",\"dyndep\":" + JEsc(e->dyndep_ ? e->dyndep_->path() : string("")) + "}";
+  }
+  edges += "]";
+  vector<string> defs;
+  for (Node* n : state.defaults_) defs.push_back(n->path());
+  string pools = "[";
+  bool first = true;
+  for (auto& p : state.pools_) {
+    if (p.first.empty() || p.first == "console") continue;
+    if (!first) pools += ",";
+    first = false;
+    pools += "{\"name\":" + JEsc(p.first) + ",\"depth\":" + to_string(p.second->depth()) + "}";
+  }
+  pools += "]";
+  return "{\"ok\":true,\"err\":\"\",\"edges\":" + edges + ",\"defaults\":" + JL(defs) + ",\"pools\":" + pools + "}";
+}
+
 // -- depfile ---------------------------------------------------------------------
 // result: {"ok":bool,"outs":[bytes...],"ins":[bytes...]}
 static string Depfile(const string& in) {
@@ -196,6 +247,26 @@ int main(int argc, char** argv) {
     }
     fclose(out);
     fprintf(stderr, "fn check %s: vectors=%ld mismatches=%ld\n", fn.c_str(), n, bad);
+    return 0;
+  }
+  if (mode == "manifest" && argc >= 4) {
+    // every line {"files":{name:text}}: parse with the real ManifestParser, dump the graph or the error
+    FILE* f = fopen(argv[2], "rb");
+    FILE* out = fopen(argv[3], "wb");
+    if (!f || !out) { perror("open"); return 2; }
+    char* lbuf = nullptr; size_t cap = 0; ssize_t ll;
+    long n = 0;
+    while ((ll = getline(&lbuf, &cap, f)) > 0) {
+      string line(lbuf, ll);
+      if (line.size() < 3) continue;
+      bool ok;
+      JV j = JParse(line, &ok);
+      if (!ok) { fprintf(stderr, "bad line\n"); return 2; }
+      fprintf(out, "%s\n", Manifest(j["files"]).c_str());
+      ++n;
+    }
+    fclose(out);
+    fprintf(stderr, "fn manifest: programs=%ld\n", n);
     return 0;
   }
   if (mode == "gen" && argc >= 6) {
